@@ -38,7 +38,7 @@ func genRT(t *rapid.T) RT {
 	r.EmptyMap = rapid.Bool().Draw(t, "emptymap")
 	r.HasP = rapid.Bool().Draw(t, "hasp")
 	if rapid.Bool().Draw(t, "hastx") {
-		r.TxID = rapid.SampledFrom([]string{"tx-1", "тх", "a b", " lead", "trail ", "\t"}).Draw(t, "txid")
+		r.TxID = rapid.SampledFrom([]string{"tx-1", "тх", "a b", " lead", "trail ", "\t", "control", "operation", "reset"}).Draw(t, "txid")
 	}
 	switch rapid.IntRange(0, 3).Draw(t, "tsmode") {
 	case 0:
@@ -55,6 +55,9 @@ func genRT(t *rapid.T) RT {
 		r.TypeName = rapid.SampledFrom([]string{"user", "a/b", "ünï", "x y"}).Draw(t, "tname")
 	}
 	r.Offset = rapid.SampledFrom([]string{"", "0000000001", "off/1"}).Draw(t, "coff")
+	if rapid.IntRange(0, 2).Draw(t, "proto") == 0 {
+		r.Proto = rapid.IntRange(1, 4).Draw(t, "protoKind")
+	}
 	if rapid.IntRange(0, 3).Draw(t, "padded") == 0 {
 		r.Pad = rapid.SampledFrom([]int{1500, 3000, 3300, 3500, 3700, 3900, 4100, 6000, 20000}).Draw(t, "pad")
 	}
